@@ -58,10 +58,11 @@ type State struct {
 	ghost map[string]string // ghost/global scalars incl. $alloc
 	iter  map[ssa.Value]string
 	seen  map[*ssa.Alloc]int // allocations executed on this path (sequence numbers), for name resolution in contracts
+	mat   map[*ssa.Alloc]string // lazily heap-allocated local variables that have been materialised: their address
 }
 
 func newState() *State {
-	return &State{loc: map[*ssa.Alloc]string{}, heap: map[string]string{}, ghost: map[string]string{}, iter: map[ssa.Value]string{}, seen: map[*ssa.Alloc]int{}}
+	return &State{loc: map[*ssa.Alloc]string{}, heap: map[string]string{}, ghost: map[string]string{}, iter: map[ssa.Value]string{}, seen: map[*ssa.Alloc]int{}, mat: map[*ssa.Alloc]string{}}
 }
 
 func (s *State) clone() *State {
@@ -80,6 +81,9 @@ func (s *State) clone() *State {
 	}
 	for k, v := range s.seen {
 		n.seen[k] = v
+	}
+	for k, v := range s.mat {
+		n.mat[k] = v
 	}
 	return n
 }
@@ -139,12 +143,15 @@ type Enc struct {
 	nseq     int
 	explicitAssumes map[string]bool
 	thisfn   string
+	heapRec  map[string]string // when non-nil: records the heap arrays read (opaque spec functions)
+	lazy     map[*ssa.Alloc]bool // heap-allocated local variables modelled as locals until their address escapes
+	cur      *cursor             // cursor of the instruction being encoded (for on-demand materialisation)
 }
 
 func newEnc(m *Model, fn *ssa.Function, c *Contract) *Enc {
 	return &Enc{m: m, top: fn, topName: m.fnName[fn], contract: c, declared: map[string]bool{}, lits: map[string]string{},
 		heaps: map[string]*heapDecl{}, ordinals: map[string]int{}, specFnDeclared: map[string]bool{},
-		assumedCallees: map[string]bool{}, inlined: map[string]bool{}, havocked: map[string]bool{}, freshAddrs: map[string]bool{}, tinvSeen: map[string]bool{}, explicitAssumes: map[string]bool{}}
+		assumedCallees: map[string]bool{}, inlined: map[string]bool{}, havocked: map[string]bool{}, freshAddrs: map[string]bool{}, tinvSeen: map[string]bool{}, explicitAssumes: map[string]bool{}, lazy: map[*ssa.Alloc]bool{}}
 }
 
 func (e *Enc) declare(line string) { e.decls = append(e.decls, line) }
@@ -250,6 +257,9 @@ func (e *Enc) heapArr(name, elemSort string) {
 
 func (e *Enc) heapGet(st *State, name, elemSort string) string {
 	e.heapArr(name, elemSort)
+	if e.heapRec != nil {
+		e.heapRec[name] = elemSort
+	}
 	if t, ok := st.heap[name]; ok {
 		return t
 	}
@@ -401,6 +411,9 @@ func (e *Enc) typeAssume(st *State, v string, t types.Type) string {
 	case *types.Slice:
 		return fmt.Sprintf("(and (<= 0 (sl_off %s)) (<= 0 (sl_len %s)) (<= (sl_len %s) (sl_cap %s)) (<= (sl_cap %s) 4611686018427387904) (< (rootid (sl_base %s)) %s) (=> (= (sl_base %s) Nil) (= (sl_cap %s) 0)))", v, v, v, v, v, v, e.ghostGet(st, "$alloc"), v, v)
 	case *types.Pointer, *types.Map:
+		if e.m.noElemPtrs {
+			return fmt.Sprintf("(and (< (rootid %s) %s) (not (inelem %s)))", v, e.ghostGet(st, "$alloc"), v)
+		}
 		return fmt.Sprintf("(< (rootid %s) %s)", v, e.ghostGet(st, "$alloc"))
 	case *types.Struct:
 		si := e.m.structOf(t)
@@ -450,6 +463,7 @@ type retInfo struct {
 	guard string
 	st    *State
 	vals  []Val
+	pos   token.Pos
 }
 
 type edge struct {
@@ -559,6 +573,29 @@ func (e *Enc) join(fc *fctx, b *ssa.BasicBlock, in []edge) (string, *State) {
 		}
 		return in[0].guard, st
 	}
+	// lazily allocated locals: if some incoming paths have materialised a variable and others have not,
+	// materialise it on the others first
+	{
+		all := map[*ssa.Alloc]bool{}
+		for _, ed := range in {
+			for a := range ed.st.mat {
+				all[a] = true
+			}
+		}
+		for a := range all {
+			for i := range in {
+				if _, ok := in[i].st.mat[a]; ok {
+					continue
+				}
+				if _, has := in[i].st.loc[a]; !has {
+					continue
+				}
+				in[i].st = in[i].st.clone()
+				tmp := &cursor{guard: in[i].guard, st: in[i].st, fc: fc, block: in[i].from}
+				e.materialize(tmp, a)
+			}
+		}
+	}
 	r := e.fresh("r", "Bool")
 	var gs []string
 	for _, ed := range in {
@@ -627,6 +664,32 @@ func (e *Enc) join(fc *fctx, b *ssa.BasicBlock, in []edge) (string, *State) {
 	}
 	st.heap = mergeMap(func(s *State) map[string]string { return s.heap }, func(k string) string { return k + "@in" }, func(k string) string { return e.heaps[k].sort })
 	st.ghost = mergeMap(func(s *State) map[string]string { return s.ghost }, func(k string) string { return e.ghostGet(newState(), k) }, func(k string) string { return e.ghostSort(k) })
+	for a, t0 := range in[0].st.mat {
+		all, same := true, true
+		for _, ed := range in[1:] {
+			t, ok := ed.st.mat[a]
+			if !ok {
+				all = false
+				break
+			}
+			if t != t0 {
+				same = false
+			}
+		}
+		if !all {
+			continue
+		}
+		if same {
+			st.mat[a] = t0
+			continue
+		}
+		f := e.fresh("mat", "Addr")
+		for _, ed := range in {
+			e.assume(ed.guard, fmt.Sprintf("(= %s %s)", f, ed.st.mat[a]))
+		}
+		e.freshAddrs[f] = true
+		st.mat[a] = f
+	}
 	for a, n := range in[0].st.seen {
 		all := true
 		for _, ed := range in[1:] {
@@ -679,8 +742,11 @@ func (e *Enc) join(fc *fctx, b *ssa.BasicBlock, in []edge) (string, *State) {
 		for _, ed := range in {
 			for i, p := range b.Preds {
 				if p == ed.from {
+					saved := e.cur
+					e.cur = &cursor{guard: ed.guard, st: ed.st, fc: fc, block: ed.from}
 					v := e.value(fc, phi.Edges[i])
 					e.assume(ed.guard, fmt.Sprintf("(= %s %s)", f, e.asTerm(v)))
+					e.cur = saved
 				}
 			}
 		}
@@ -739,6 +805,7 @@ func (e *Enc) runFunc(fc *fctx, guard string, st *State) []retInfo {
 				continue
 			}
 			cur.idx = ii
+			e.cur = cur
 			switch x := ins.(type) {
 			case *ssa.If:
 				c := e.asTerm(e.value(fc, x.Cond))
@@ -754,7 +821,7 @@ func (e *Enc) runFunc(fc *fctx, guard string, st *State) []retInfo {
 					e.publishCheck(cur, r, x.Pos(), "returned")
 					vs = append(vs, e.value(fc, r))
 				}
-				rets = append(rets, retInfo{cur.guard, cur.st, vs})
+				rets = append(rets, retInfo{cur.guard, cur.st, vs, x.Pos()})
 			case *ssa.Panic:
 				if !e.knownPanicOK(fc, x) {
 					e.oblige(cur.guard, "panic", fmt.Sprintf("%sexplicit-panic#%d", fc.tag, e.ordinal(fc.tag+"panic")), "false", []string{"C01"}, x.Pos(), "panic(...) must be unreachable")
@@ -820,8 +887,32 @@ func (e *Enc) loopHead(fc *fctx, l *loopInfo, guard string, st *State) (string, 
 	eff := e.loopEffects(fc, l)
 	ns := st.clone()
 	for a := range eff.locals {
-		if _, ok := ns.loc[a]; ok {
+		if curv, ok := ns.loc[a]; ok {
 			et := a.Type().(*types.Pointer).Elem()
+			// a struct variable of which only some fields are assigned in the loop keeps the others
+			whole := false
+			for _, p := range eff.lpaths[a] {
+				if len(p) == 0 {
+					whole = true
+				}
+			}
+			if !whole && len(eff.lpaths[a]) > 0 && isStruct(et) && e.m.structOf(et) != nil {
+				nv := curv
+				seen := map[string]bool{}
+				for _, p := range eff.lpaths[a] {
+					key := fmt.Sprint(p)
+					if seen[key] {
+						continue
+					}
+					seen[key] = true
+					_, ft := e.project(nv, et, p)
+					f := e.fresh(a.Comment, e.m.sortOf(ft))
+					e.assume(guard, e.typeAssume(ns, f, ft))
+					nv = e.update(nv, et, p, f)
+				}
+				ns.loc[a] = e.define(a.Comment, e.m.sortOf(et), nv)
+				continue
+			}
 			f := e.fresh(a.Comment, e.m.sortOf(et))
 			ns.loc[a] = f
 			e.assume(guard, e.typeAssume(ns, f, et))
